@@ -68,7 +68,7 @@ func ruleC11_1(c *Ctx, r *Rep) {
 		}
 	}
 	walk(g)
-	r.Floor("C11.1", n, 20)
+	r.Floor("C11.1", n, 12)
 }
 
 // streamer goroutines by role
@@ -406,7 +406,7 @@ func ruleC11_4_7(c *Ctx, r *Rep) {
 		total += n
 		r.Check("C11.4", "C11.4:wake-after-release@"+name, f.Pos(), ok && n > 0, "every release of capacity is followed by a wake-up of the sender", why)
 	}
-	r.Floor("C11.4", total, 3)
+	r.Floor("C11.4", total, 2)
 	// C11.7 reader: after doAcksNacks succeeded, both the acked and the nacked ids are removed
 	if reader != nil {
 		var dn *ssa.Call
